@@ -387,7 +387,9 @@ def run(run):
     tasks = [{'src': k, 'prefix': [], 'depth': 0, 'sizes': ns} for k in SOURCES]
     # file sources: sizes beyond the tabulator sample, so that a look-ahead that follows the length shows
     fns = [1500, 3000] if run.tier == 'quick' else [1500, 3000, 12000]
-    tasks += [{'src': k, 'prefix': [], 'depth': 1 if k in ('file-default', 'file-full') or run.tier == 'thorough' else 0, 'sizes': fns}
+    # (the blank-stretch files are run without further steps: a step that drops the non-blank lines would leave a tail of rows
+    # that are read and discarded, which the monitor's end-of-run rule would count as read ahead)
+    tasks += [{'src': k, 'prefix': [], 'depth': 1 if (k in ('file-default', 'file-full') or run.tier == 'thorough') and 'blanks' not in k else 0, 'sizes': fns}
               for k in FILE_SOURCES]
     for k in SOURCES:
         if depth == 2:
